@@ -268,6 +268,9 @@ func parseContractFile(path, pkgPath string) ([]*Item, error) {
 				return nil, fail(fmt.Errorf("expected: use <where> :: lemma(args)"))
 			}
 			x, err := parseSpecExpr(rest[k+2:])
+			if err == nil && x.Op == "mcall" {
+				x = &SExpr{Op: "call", Name: x.Name, Args: x.Args[1:]}
+			}
 			if err != nil || x.Op != "call" {
 				return nil, fail(fmt.Errorf("use needs a lemma call: %v", err))
 			}
@@ -436,6 +439,9 @@ func parseLemmaSteps(s string) ([]*LemmaStep, error) {
 		case strings.HasPrefix(s, "use "):
 			end := topIndex(s, ';')
 			x, err := parseSpecExpr(s[4:end])
+			if err == nil && x.Op == "mcall" {
+				x = &SExpr{Op: "call", Name: x.Name, Args: x.Args[1:]}
+			}
 			if err != nil || x.Op != "call" {
 				return nil, fmt.Errorf("use needs a lemma call")
 			}
